@@ -81,6 +81,24 @@ def mul_lin(a, b):
     return sym_prod(a, b)
 
 
+def product_with_facts(la, lb, facts):
+    """``la * lb`` as a derived symbol; adds the rounding lemmas when one factor is ceil/floor(a / other)."""
+    p = sym_prod(la, lb)
+    for x, y in ((la, lb), (lb, la)):
+        # b * ceil(a / b) >= a  and  <= a + b - 1 ;  b * floor(a / b) <= a  and  >= a - b + 1   (b >= 1)
+        if len(x.terms) == 1 and x.const == 0:
+            s, c = list(x.terms.items())[0]
+            d = SYMDEFS.get(s)
+            if c == 1 and d and d[0] in ("ceil", "floor") and d[2] == y:
+                if d[0] == "ceil":
+                    facts.add_cmp(p, ">=", d[1], "m * ceil(a / m) >= a")
+                    facts.add_cmp(p, "<=", d[1] + y - 1, "m * ceil(a / m) <= a + m - 1")
+                else:
+                    facts.add_cmp(p, "<=", d[1], "m * floor(a / m) <= a")
+                    facts.add_cmp(p, ">=", d[1] - y + 1, "m * floor(a / m) >= a - m + 1")
+    return p
+
+
 class Uneval(Exception):
     """A symbol has no value in the concrete environment."""
 
@@ -149,35 +167,76 @@ class Env:
         return d
 
 
-def relevant(facts, lin, rounds=3):
-    """Facts connected to ``lin`` through shared symbols (keeps entailment searches small)."""
-    syms = set(lin.symbols())
-    chosen = []
-    rest = list(facts.items)
-    for _ in range(rounds):
-        nxt = []
-        grew = False
-        for f, o in rest:
-            if f.symbols() & syms:
-                chosen.append((f, o))
-                syms |= f.symbols()
-                grew = True
-            else:
-                nxt.append((f, o))
-        rest = nxt
-        if not grew:
-            break
-    return Facts(chosen)
+def _to_int_dict(lin):
+    """(dict symbol -> int, int const) scaled by the common denominator (sign-preserving)."""
+    den = lin.const.denominator
+    for c in lin.terms.values():
+        d = c.denominator
+        if d != 1:
+            g = den
+            while d:
+                g, d = d, g % d
+            den = den * c.denominator // g
+    return {k: int(v * den) for k, v in lin.terms.items()}, int(lin.const * den)
+
+
+def _fact_table(facts):
+    """Facts as integer dicts, cached on the Facts object (facts are append-only)."""
+    cache = getattr(facts, "_c05_cache", None)
+    if cache is None or cache[0] != len(facts.items):
+        tab = [_to_int_dict(f) for f, _ in facts.items]
+        by_sym = {}
+        for i, (d, c) in enumerate(tab):
+            for k, v in d.items():
+                by_sym.setdefault((k, v > 0), []).append(i)
+        cache = (len(facts.items), tab, by_sym)
+        try:
+            facts._c05_cache = cache
+        except AttributeError:
+            pass
+    return cache[1], cache[2]
 
 
 def entails(facts, lin, depth=4):
+    """``lin <= 0`` follows from a non-negative combination of at most ``depth`` facts
+    (goal-directed elimination of one symbol at a time; rational relaxation, hence sound)."""
     lin = as_lin(lin)
     if lin.is_const():
         return lin.const <= 0
-    f = relevant(facts, lin)
-    if len(f.items) > 14:
-        depth = min(depth, 3)
-    return f.entails(lin, depth) is not None
+    tab, by_sym = _fact_table(facts)
+    rest, const = _to_int_dict(lin)
+
+    def dfs(rest, const, depth):
+        if not rest:
+            return const <= 0
+        if depth == 0:
+            return False
+        # eliminate the symbol with the fewest candidate facts
+        best, cands = None, None
+        for k, v in rest.items():
+            c = by_sym.get((k, v > 0), ())
+            if not c:
+                return False
+            if cands is None or len(c) < len(cands):
+                best, cands = k, c
+        a = rest[best]
+        for i in cands:
+            fd, fc = tab[i]
+            b = fd[best]
+            ma, mb = abs(b), abs(a)
+            new = {}
+            for k, v in rest.items():
+                x = v * ma - fd.get(k, 0) * mb
+                if x:
+                    new[k] = x
+            for k, v in fd.items():
+                if k not in rest:
+                    new[k] = -v * mb
+            if dfs(new, const * ma - fc * mb, depth - 1):
+                return True
+        return False
+
+    return dfs(rest, const, depth)
 
 
 class Q:
@@ -242,6 +301,15 @@ class Q:
 OOB = ("oob",)
 
 
+def wrap_index(x, dim, q):
+    """numpy semantics of a possibly negative scalar index; None when the sign is unknown."""
+    if q.le(ZERO, x) is True:
+        return q.ev(x)
+    if q.le(x, Lin.c(-1)) is True:
+        return q.ev(x + dim)
+    return None
+
+
 class Nd:
     """Abstract n-d array term."""
     shape = ()
@@ -301,7 +369,8 @@ def subst_val(v, mapping):
     if isinstance(v, Lin):
         return v.subst(mapping)
     if isinstance(v, Elem):
-        return Elem(v.arr, [c.subst(mapping) for c in v.coords])
+        return Elem(v.arr, [c.subst(mapping) for c in v.coords],
+                    [w.subst(mapping) if w is not None else None for w in v.wraps], v.kw)
     if isinstance(v, Opq):
         return Opq(v.tag, [subst_val(a, mapping) for a in v.args])
     if isinstance(v, Vec):
@@ -344,7 +413,10 @@ class Buf(Nd):
                     return None
                 v = list(lp.var.symbols())[0]
                 solved = False
-                for d, (lo, hi, pt) in enumerate(st.box):
+                for d, b in enumerate(st.box):
+                    lo, hi, pt = b[0], b[1], b[2]
+                    if len(b) > 3:
+                        continue
                     lo_m = lo.subst(mapping)
                     if pt and lo_m.terms.get(v) in (1, -1):
                         coef = lo_m.terms[v]
@@ -361,19 +433,31 @@ class Buf(Nd):
                 if r is None:
                     return None
                 if limit is not None and v in limit:
-                    # reads inside the same loop only see stores of earlier iterations
-                    cur, inclusive = limit[v]
-                    r2 = q.le(mapping[v] + (0 if inclusive else 1), cur)
-                    if r2 is False:
-                        return "miss"
-                    if r2 is None:
-                        return None
+                    # a read inside the loop sees the stores of earlier iterations, and those of its own
+                    # iteration that precede it in the body
+                    cur, seq = limit[v]
+                    earlier = q.le(mapping[v] + 1, cur)
+                    if earlier is not True:
+                        same = q.eq(mapping[v], cur)
+                        if same is True:
+                            if not st.seq < seq:
+                                return "miss"
+                        elif earlier is False and same is False:
+                            return "miss"
+                        else:
+                            return None
         return self._lookup_box(st, coords, q, mapping)
 
     def _lookup_box(self, st, coords, q, mapping):
         unknown = False
-        for d, (lo, hi, pt) in enumerate(st.box):
-            r = q.inrange(coords[d], lo.subst(mapping), hi.subst(mapping))
+        for d, b in enumerate(st.box):
+            lo, hi = b[0].subst(mapping), b[1].subst(mapping)
+            if len(b) > 3:
+                lo = wrap_index(lo, b[3].subst(mapping), q)
+                if lo is None:
+                    return None
+                hi = lo + 1
+            r = q.inrange(coords[d], lo, hi)
             if r is False:
                 return "miss"
             if r is None:
@@ -396,8 +480,19 @@ class Buf(Nd):
                 vc.append(c)
             if mapping:
                 val = subst_val(val, mapping) if isinstance(val, View) else val
-            return ("hit", val.cell(vc, q))
-        return ("hit", ("val", subst_val(val, mapping) if mapping else val))
+            return ("hit", val.cell(vc, q, **self._read_time(st, mapping)))
+        if mapping:
+            val = subst_val(val, mapping)
+        if isinstance(val, Elem):
+            val = Elem(val.arr, val.coords, val.wraps, self._read_time(st, mapping))
+        return ("hit", ("val", val))
+
+    @staticmethod
+    def _read_time(st, mapping):
+        """The stored value was read when the store executed."""
+        if mapping:
+            return {"limit": {v: (x, st.seq) for v, x in mapping.items()}}
+        return {"upto": st.seq}
 
     def _lookup_enum(self, st, coords, q, limit):
         """Concrete mode: enumerate the loop iterations, latest first."""
@@ -421,9 +516,9 @@ class Buf(Nd):
                 x += step
             for x in reversed(vals):
                 if limit is not None and v in limit:
-                    cur, inclusive = limit[v]
+                    cur, seq = limit[v]
                     c = q.env.eval(cur)
-                    if x > c or (x == c and not inclusive):
+                    if x > c or (x == c and not st.seq < seq):
                         continue
                 mapping[v] = Lin.c(x)
                 yield from rec(i + 1, mapping)
@@ -475,6 +570,8 @@ class View(Nd):
         for s in self.spec:
             if s[0] == "pt":
                 out.append(q.ev(s[1]))
+            elif s[0] == "ptw":
+                out.append(wrap_index(s[1], s[2], q))
             elif s[0] == "sl":
                 out.append(q.ev(coords[s[1]] + s[2]))
             else:
@@ -487,6 +584,8 @@ class View(Nd):
                 if not q.inrange(c, ZERO, n):
                     return OOB
         bc = self.map(coords, q)
+        if any(c is None for c in bc):
+            return None
         return self.base.cell(bc, q, **kw)
 
     def subst(self, mapping):
@@ -494,6 +593,8 @@ class View(Nd):
         for s in self.spec:
             if s[0] == "pt":
                 spec.append(("pt", s[1].subst(mapping)))
+            elif s[0] == "ptw":
+                spec.append(("ptw", s[1].subst(mapping), s[2].subst(mapping)))
             elif s[0] == "sl":
                 spec.append(("sl", s[1], s[2].subst(mapping)))
             else:
@@ -503,7 +604,7 @@ class View(Nd):
     def __repr__(self):
         parts = []
         for s in self.spec:
-            if s[0] == "pt":
+            if s[0] in ("pt", "ptw"):
                 parts.append("%r" % s[1])
             elif s[0] == "sl":
                 parts.append("d%d%s" % (s[1], "" if s[2] == ZERO else " + (%r)" % s[2]))
@@ -686,13 +787,25 @@ class Flat(Nd):
 
 # ------------------------------------------------------------------ scalar-ish values
 class Elem:
-    """A single element of an array term."""
+    """A single element of an array term (``wraps[d]`` = axis length when the sign of the index is unknown;
+    ``kw`` = the moment of the read: store-visibility limits)."""
 
-    def __init__(self, arr, coords):
+    def __init__(self, arr, coords, wraps=None, kw=None):
         self.arr, self.coords = arr, [as_lin(c) for c in coords]
+        self.wraps = list(wraps) if wraps else [None] * len(self.coords)
+        self.kw = kw
 
-    def content(self, q):
-        return self.arr.cell(self.coords, q)
+    def content(self, q, **kw):
+        cc = []
+        for c, wdim in zip(self.coords, self.wraps):
+            if wdim is not None:
+                c = wrap_index(c, wdim, q)
+                if c is None:
+                    return None
+            cc.append(c)
+        if self.kw:
+            kw = self.kw
+        return self.arr.cell(cc, q, **kw)
 
     def __eq__(self, o):
         return isinstance(o, Elem) and self.arr is o.arr and self.coords == o.coords
@@ -837,6 +950,12 @@ class AInterp(Interp):
                 return Opq("attr:" + attr, [base])
         return super().getattr(base, attr, e, st, frame)
 
+    def _is(self, a, b):
+        for x, y in ((a, b), (b, a)):
+            if isinstance(y, K) and y.v is None and isinstance(x, (Nd, EstV, ListV, ItemV, CallV, Elem, EnumV)):
+                return False
+        return super()._is(a, b)
+
     # -- arithmetic ---------------------------------------------------------------
     def binop(self, op, a, b, st):
         la, lb = as_lin_val(a), as_lin_val(b)
@@ -856,20 +975,7 @@ class AInterp(Interp):
         return super().binop(op, a, b, st)
 
     def product(self, la, lb, st):
-        p = sym_prod(la, lb)
-        for x, y in ((la, lb), (lb, la)):
-            # b * ceil(a / b) >= a  and  < a + b ;  b * floor(a / b) <= a
-            if len(x.terms) == 1 and x.const == 0:
-                s, c = list(x.terms.items())[0]
-                d = SYMDEFS.get(s)
-                if c == 1 and d and d[0] in ("ceil", "floor") and d[2] == y:
-                    if d[0] == "ceil":
-                        st.facts.add_cmp(p, ">=", d[1], "m * ceil(a / m) >= a")
-                        st.facts.add_cmp(p, "<=", d[1] + y - 1, "m * ceil(a / m) <= a + m - 1")
-                    else:
-                        st.facts.add_cmp(p, "<=", d[1], "m * floor(a / m) <= a")
-                        st.facts.add_cmp(p, ">=", d[1] - y + 1, "m * floor(a / m) >= a - m + 1")
-        return p
+        return product_with_facts(la, lb, st.facts)
 
     # -- subscripts ----------------------------------------------------------------
     def norm_index(self, x, dim, st):
@@ -914,10 +1020,8 @@ class AInterp(Interp):
                 return None
             lv = as_lin_val(v)
             if lv is not None:
-                lv = self.norm_index(lv, dim, st)
-                if lv is None:
-                    return None
-                out.append(("pt", lv))
+                nv = self.norm_index(lv, dim, st)
+                out.append(("pt", nv) if nv is not None else ("ptw", lv, dim))
             elif isinstance(v, FHV):
                 out.append(("ga", v.vec))
             elif isinstance(v, Vec):
@@ -957,12 +1061,14 @@ class AInterp(Interp):
         return super().index(base, idx, e, st, frame)
 
     def make_view(self, base, spec):
-        if all(s[0] == "pt" for s in spec):
-            return Elem(base, [s[1] for s in spec])
+        if all(s[0] in ("pt", "ptw") for s in spec):
+            return Elem(base, [s[1] for s in spec], [s[2] if s[0] == "ptw" else None for s in spec])
         vspec, shape = [], []
         for s in spec:
             if s[0] == "pt":
                 vspec.append(("pt", s[1]))
+            elif s[0] == "ptw":
+                vspec.append(s)
             elif s[0] == "sl":
                 vspec.append(("sl", len(shape), s[1]))
                 shape.append(s[2] - s[1])
@@ -982,6 +1088,8 @@ class AInterp(Interp):
             for s in spec:
                 if s[0] == "pt":
                     box.append((s[1], s[1] + 1, True))
+                elif s[0] == "ptw":
+                    box.append((s[1], s[1] + 1, True, s[2]))
                 else:
                     box.append((s[1], s[2], False))
             self.seq += 1
